@@ -63,8 +63,12 @@ int hmac_update(HMAC_CTX *ctx, const uint8_t *data, size_t datalen)
 		error_print();
 		return -1;
 	}
-	if (data == NULL || datalen == 0) {
-		return 0;
+	if (datalen == 0) {
+		return 1;
+	}
+	if (data == NULL) {
+		error_print();
+		return -1;
 	}
 	if (digest_update(&ctx->digest_ctx, data, datalen) != 1) {
 		error_print();
